@@ -742,16 +742,22 @@ class Program:
                 return r
         raise KeyError(name)
 
-    def text(self, extra_attrs=(), struct_sig=None, init_texts=None, indent='   '):
-        lines = []
+    def lines(self, extra_attrs=(), struct_sig=None, init_texts=None):
+        """(header lines [attributes, struct signature], item lines [declarations, macros, rules])"""
+        head = []
         for a in list(self.attrs) + list(extra_attrs):
-            lines.append('#![%s]' % a)
+            head.append('#![%s]' % a)
         if struct_sig:
-            lines.append(struct_sig)
+            head.append(struct_sig)
+        items = []
         for r in self.rels:
-            lines.append(r.decl((init_texts or {}).get(r.name)))
+            items.append(r.decl((init_texts or {}).get(r.name)))
         for m in self.macros:
-            lines.append(m.rs())
+            items.append(m.rs())
         for r in self.rules:
-            lines.append(r.rs())
-        return '\n'.join(indent + l for l in lines)
+            items.append(r.rs())
+        return head, items
+
+    def text(self, extra_attrs=(), struct_sig=None, init_texts=None, indent='   '):
+        head, items = self.lines(extra_attrs, struct_sig, init_texts)
+        return '\n'.join(indent + l for l in head + items)
